@@ -49,9 +49,6 @@ Proof. unfold has_fs. simpl. intros a r H. apply orb_false_iff in H. tauto. Qed.
 Lemma has_dbs_cons : forall a r, has_dbs (a :: r) = false -> has_dbs r = false.
 Proof. simpl. intros a r H. apply orb_false_iff in H. tauto. Qed.
 
-Lemma mixed_cons : forall a r, mixed (a :: r) = false -> mixed r = false.
-Proof. simpl. intros a r H. apply orb_false_iff in H. tauto. Qed.
-
 Lemma contains_cons : forall pat a r, contains_ci pat (a :: r) = false -> contains_ci pat r = false.
 Proof. intros pat a r H. simpl in H. apply orb_false_iff in H. tauto. Qed.
 
@@ -61,20 +58,8 @@ Proof. intros s c [pre H]. subst c. induction pre; simpl app; auto. intros H. ap
 Lemma suffix_has_dbs : forall s c, suffix s c -> has_dbs c = false -> has_dbs s = false.
 Proof. intros s c [pre H]. subst c. induction pre; simpl app; auto. intros H. apply IHpre. eapply has_dbs_cons; eauto. Qed.
 
-Lemma suffix_mixed : forall s c, suffix s c -> mixed c = false -> mixed s = false.
-Proof. intros s c [pre H]. subst c. induction pre; simpl app; auto. intros H. apply IHpre. eapply mixed_cons; eauto. Qed.
-
 Lemma suffix_contains : forall pat s c, suffix s c -> contains_ci pat c = false -> contains_ci pat s = false.
 Proof. intros pat s c [pre H]. subst c. induction pre; simpl app; auto. intros H. apply IHpre. eapply contains_cons; eauto. Qed.
-
-Lemma mixed_prefix : forall a b, mixed (a ++ b) = false -> mixed a = false.
-Proof.
-  induction a as [|x a IH]; intros b H; [reflexivity|].
-  simpl app in H. pose proof (mixed_cons _ _ H) as H'. apply IH in H'.
-  destruct a as [|y a].
-  - simpl. now rewrite andb_false_r.
-  - simpl in *. apply orb_false_iff in H. destruct H as [H _]. rewrite H. exact H'.
-Qed.
 
 (* ------------------------------------------------------------------------------------------- *)
 (* trim_whitespace *)
@@ -147,55 +132,41 @@ Proof. intros p H1 H2. unfold trim_ws. rewrite drop_ws_id by exact H1. now apply
 Lemma trim_all_space : forall p, all_space p = true -> trim_ws p = [].
 Proof. intros p H. unfold trim_ws. now rewrite drop_ws_all. Qed.
 
-Lemma trim_mixed : forall p, mixed p = false -> mixed (trim_ws p) = false.
-Proof.
-  intros p H. unfold trim_ws.
-  destruct (dwe_prefix (drop_ws p)) as [tl E].
-  apply mixed_prefix with (b := tl). rewrite <- E.
-  eapply suffix_mixed; [apply drop_ws_suffix|exact H].
-Qed.
-
 (* ------------------------------------------------------------------------------------------- *)
 (* the slash clean-up *)
 
-Lemma collapse_no_fs : forall p prev, has_fs (collapse_from prev p) = false.
+Lemma collapse_no_fs : forall p b, has_fs (collapse_from b p) = false.
 Proof.
-  induction p as [|c r IH]; intros prev; [reflexivity|].
+  induction p as [|c r IH]; intros b; [reflexivity|].
   simpl. destruct (is_sep c) eqn:Es.
-  - destruct (c =? prev); [apply IH|]. unfold has_fs in *. simpl. apply IH.
+  - destruct b; [apply IH|]. unfold has_fs in *. simpl. apply IH.
   - unfold has_fs in *. simpl. rewrite IH. unfold is_sep, FS in *.
     destruct (47 =? c) eqn:E; [exfalso; lia|reflexivity].
 Qed.
 
-Lemma collapse_hd_after_sep : forall r c, is_sep c = true -> mixed (c :: r) = false ->
-  hd_bs (collapse_from c r) = false.
+Lemma collapse_hd_after_sep : forall r, hd_bs (collapse_from true r) = false.
 Proof.
-  induction r as [|d r IH]; intros c Hc Hm; [reflexivity|].
-  simpl. destruct (is_sep d) eqn:Ed.
-  - assert (d = c) as ->.
-    { simpl in Hm. rewrite Hc, Ed in Hm. simpl in Hm. apply orb_false_iff in Hm.
-      destruct Hm as [Hm _]. apply negb_false_iff in Hm. apply N.eqb_eq in Hm. now symmetry. }
-    rewrite N.eqb_refl. apply IH; [exact Hc|]. eapply mixed_cons; exact Hm.
-  - simpl. unfold is_sep, BS in *. lia.
+  induction r as [|d r IH]; [reflexivity|].
+  simpl. destruct (is_sep d) eqn:Ed; [exact IH|].
+  simpl. unfold is_sep, BS in *. lia.
 Qed.
 
-Lemma collapse_no_dbs : forall p prev, mixed p = false -> has_dbs (collapse_from prev p) = false.
+Lemma collapse_no_dbs : forall p b, has_dbs (collapse_from b p) = false.
 Proof.
-  induction p as [|c r IH]; intros prev Hm; [reflexivity|].
-  pose proof (mixed_cons _ _ Hm) as Hr.
+  induction p as [|c r IH]; intros b; [reflexivity|].
   simpl. destruct (is_sep c) eqn:Es.
-  - destruct (c =? prev); [now apply IH|].
-    pose proof (collapse_hd_after_sep r c Es Hm) as Hh.
-    simpl. rewrite IH by exact Hr. unfold hd_bs in Hh.
-    destruct (collapse_from c r); [reflexivity|]. rewrite Hh. reflexivity.
-  - simpl. rewrite IH by exact Hr.
+  - destruct b; [apply IH|].
+    pose proof (collapse_hd_after_sep r) as Hh.
+    simpl. rewrite IH. unfold hd_bs in Hh.
+    destruct (collapse_from true r); [reflexivity|]. rewrite Hh. reflexivity.
+  - simpl. rewrite IH.
     assert ((c =? BS) = false) as -> by (unfold is_sep, BS in *; lia). reflexivity.
 Qed.
 
-Lemma collapse_id : forall q prev, has_fs q = false -> has_dbs q = false ->
-  (hd_bs q = false \/ prev <> BS) -> collapse_from prev q = q.
+Lemma collapse_id : forall q b, has_fs q = false -> has_dbs q = false ->
+  (hd_bs q = false \/ b = false) -> collapse_from b q = q.
 Proof.
-  induction q as [|c r IH]; intros prev Hf Hd Hp; [reflexivity|].
+  induction q as [|c r IH]; intros b Hf Hd Hp; [reflexivity|].
   pose proof (has_fs_cons _ _ Hf) as Hfr. pose proof (has_dbs_cons _ _ Hd) as Hdr.
   assert ((c =? FS) = false) as Hc47.
   { unfold has_fs in Hf. simpl in Hf. apply orb_false_iff in Hf. destruct Hf as [Hf _].
@@ -203,36 +174,34 @@ Proof.
   simpl. unfold is_sep. rewrite Hc47. simpl.
   destruct (c =? BS) eqn:Ec.
   - apply N.eqb_eq in Ec. subst c.
-    assert ((BS =? prev) = false) as ->.
-    { destruct Hp as [Hp|Hp]; [simpl in Hp; unfold BS in Hp; discriminate|].
-      apply N.eqb_neq. congruence. }
+    assert (b = false) as ->.
+    { destruct Hp as [Hp|Hp]; [simpl in Hp; unfold BS in Hp; discriminate|exact Hp]. }
     f_equal. apply IH; auto. left.
     simpl in Hd. apply orb_false_iff in Hd. destruct Hd as [Hd _].
     destruct r; [reflexivity|]. simpl. unfold BS in *. simpl in Hd. exact Hd.
-  - f_equal. apply IH; auto. right. intros ->. now rewrite N.eqb_refl in Ec.
+  - f_equal. apply IH; auto.
 Qed.
 
-Lemma collapse_nonsep_ne : forall r prev, is_sep prev = false -> r <> [] -> collapse_from prev r <> [].
+Lemma collapse_nonsep_ne : forall r, r <> [] -> collapse_from false r <> [].
 Proof.
-  destruct r as [|c r]; intros prev Hp Hr; [congruence|].
-  simpl. destruct (is_sep c) eqn:Es; [|discriminate].
-  assert ((c =? prev) = false) as -> by (apply N.eqb_neq; intros ->; congruence). discriminate.
+  destruct r as [|c r]; intros Hr; [congruence|].
+  simpl. destruct (is_sep c); discriminate.
 Qed.
 
-Lemma collapse_last : forall p prev, last_space p = false -> last_space (collapse_from prev p) = false.
+Lemma collapse_last : forall p b, last_space p = false -> last_space (collapse_from b p) = false.
 Proof.
-  induction p as [|c r IH]; intros prev H; [reflexivity|].
+  induction p as [|c r IH]; intros b H; [reflexivity|].
   destruct r as [|x r'].
-  - simpl. destruct (is_sep c); [destruct (c =? prev)|]; try reflexivity; exact H.
+  - simpl. destruct (is_sep c); [destruct b|]; try reflexivity; exact H.
   - rewrite last_space_cons in H by discriminate.
-    change (collapse_from prev (c :: x :: r')) with
-      (if is_sep c then (if c =? prev then collapse_from c (x :: r') else BS :: collapse_from c (x :: r'))
-       else c :: collapse_from c (x :: r')).
+    change (collapse_from b (c :: x :: r')) with
+      (if is_sep c then (if b then collapse_from true (x :: r') else BS :: collapse_from true (x :: r'))
+       else c :: collapse_from false (x :: r')).
     destruct (is_sep c) eqn:Es.
-    + destruct (c =? prev); [now apply IH|].
-      destruct (collapse_from c (x :: r')) eqn:E; [reflexivity|].
+    + destruct b; [now apply IH|].
+      destruct (collapse_from true (x :: r')) eqn:E; [reflexivity|].
       rewrite last_space_cons by discriminate. rewrite <- E. now apply IH.
-    + rewrite last_space_cons by (apply collapse_nonsep_ne; [exact Es|discriminate]). now apply IH.
+    + rewrite last_space_cons by (apply collapse_nonsep_ne; discriminate). now apply IH.
 Qed.
 
 (* ------------------------------------------------------------------------------------------- *)
@@ -353,6 +322,43 @@ Proof.
     destruct Hl as [-> | ->]; reflexivity.
 Qed.
 
+(* the terrain-only removal of Data\ in front of textures\ *)
+Definition sdt (terrain : bool) (c : list N) : list N := if terrain then strip_data_tex c else c.
+
+Lemma sdt_suffix : forall terrain c, suffix (sdt terrain c) c.
+Proof.
+  intros terrain c. unfold sdt, strip_data_tex. destruct terrain; [|apply suffix_refl].
+  destruct (starts_ci DATATEX c); [apply suffix_skipn|apply suffix_refl].
+Qed.
+
+Lemma starts_ci_app_both : forall l m p, starts_ci (l ++ m) (l ++ p) = starts_ci m p.
+Proof. induction l as [|a l IH]; intros m p; [reflexivity|]. simpl. rewrite N.eqb_refl. apply IH. Qed.
+
+Lemma strip_data_tex_prefixed : forall q, starts_ci TEX q = true -> strip_data_tex (DATA ++ q) = q.
+Proof.
+  intros q H. unfold strip_data_tex, DATATEX. rewrite starts_ci_app_both, H. reflexivity.
+Qed.
+
+(* Data\textures\ at the front means \textures\ at offset 4 *)
+Lemma datatex_contains : forall q, starts_ci DATATEX q = true -> contains_ci BTEX q = true.
+Proof.
+  intros q H.
+  destruct q as [|c1 [|c2 [|c3 [|c4 [|c5 r]]]]]; try discriminate H;
+    try (simpl in H; repeat (apply andb_true_iff in H; destruct H as [? H]); discriminate).
+  change (starts_ci DATATEX (c1 :: c2 :: c3 :: c4 :: c5 :: r)) with
+    ((lower c1 =? lower 68) && ((lower c2 =? lower 97) && ((lower c3 =? lower 116) &&
+     ((lower c4 =? lower 97) && ((lower c5 =? lower 92) && starts_ci TEX r))))) in H.
+  repeat (apply andb_true_iff in H; destruct H as [_ H]).
+  assert (starts_ci BTEX (c5 :: r) = true) as Hb.
+  { change (starts_ci BTEX (c5 :: r)) with ((lower c5 =? lower 92) && starts_ci TEX r).
+    exact H. }
+  change (contains_ci BTEX (c1 :: c2 :: c3 :: c4 :: c5 :: r)) with
+    (starts_ci BTEX (c1 :: c2 :: c3 :: c4 :: c5 :: r) || (starts_ci BTEX (c2 :: c3 :: c4 :: c5 :: r) ||
+     (starts_ci BTEX (c3 :: c4 :: c5 :: r) || (starts_ci BTEX (c4 :: c5 :: r) ||
+      (starts_ci BTEX (c5 :: r) || match r with [] => false | _ :: r0 => contains_ci BTEX r0 end))))).
+  rewrite Hb. rewrite !orb_true_r. reflexivity.
+Qed.
+
 Section Clean.
   Variable isrel : list N -> bool.
   (* libstdc++ on POSIX: a path without '/' is relative (satisfied by isrel_posix, see below) *)
@@ -360,14 +366,14 @@ Section Clean.
 
   (* the part of the clean-up behind trim and slash clean-up *)
   Definition finish (np terrain : bool) (c : list N) : list N :=
-    let s := drop_bs (strip_to_textures c) in
+    let s := drop_bs (strip_to_textures (sdt terrain c)) in
     let s1 := if np && isrel s then add_prefix TEX s else s in
     if terrain && isrel s1 then add_prefix DATA s1 else s1.
 
   Lemma clean_unfold : forall np terrain p, trim_ws p <> [] ->
     clean np terrain isrel p = finish np terrain (collapse (trim_ws p)).
   Proof.
-    intros np terrain p H. unfold clean, finish.
+    intros np terrain p H. unfold clean, finish, sdt.
     destruct p as [|c r]; [exfalso; apply H; reflexivity|].
     destruct (trim_ws (c :: r)); [congruence|reflexivity].
   Qed.
@@ -385,28 +391,30 @@ Section Clean.
     unfold collapse. rewrite collapse_id; auto.
   Qed.
 
-  (* the string [s] behind trim, slash clean-up, textures search and leading backslash removal *)
-  Definition core (p : list N) : list N := drop_bs (strip_to_textures (collapse (trim_ws p))).
+  (* the string [s] behind trim, slash clean-up, terrain Data\ removal, textures search and leading
+     backslash removal *)
+  Definition core (terrain : bool) (p : list N) : list N :=
+    drop_bs (strip_to_textures (sdt terrain (collapse (trim_ws p)))).
 
-  Lemma core_suffix : forall p, suffix (core p) (collapse (trim_ws p)).
-  Proof. intros p. unfold core. eapply suffix_trans; [apply drop_bs_suffix|apply strip_suffix]. Qed.
-
-  Lemma core_fs : forall p, has_fs (core p) = false.
-  Proof. intros p. eapply suffix_has_fs; [apply core_suffix|apply collapse_no_fs]. Qed.
-
-  Lemma core_dbs : forall p, mixed p = false -> has_dbs (core p) = false.
+  Lemma core_suffix : forall terrain p, suffix (core terrain p) (collapse (trim_ws p)).
   Proof.
-    intros p H. eapply suffix_has_dbs; [apply core_suffix|].
-    apply collapse_no_dbs. now apply trim_mixed.
+    intros terrain p. unfold core.
+    eapply suffix_trans; [apply drop_bs_suffix|]. eapply suffix_trans; [apply strip_suffix|apply sdt_suffix].
   Qed.
 
-  Lemma core_hd_bs : forall p, hd_bs (core p) = false.
-  Proof. intros p. apply drop_bs_hd. Qed.
+  Lemma core_fs : forall terrain p, has_fs (core terrain p) = false.
+  Proof. intros terrain p. eapply suffix_has_fs; [apply core_suffix|apply collapse_no_fs]. Qed.
 
-  Lemma core_last : forall p, last_space (core p) = false.
+  Lemma core_dbs : forall terrain p, has_dbs (core terrain p) = false.
+  Proof. intros terrain p. eapply suffix_has_dbs; [apply core_suffix|apply collapse_no_dbs]. Qed.
+
+  Lemma core_hd_bs : forall terrain p, hd_bs (core terrain p) = false.
+  Proof. intros terrain p. apply drop_bs_hd. Qed.
+
+  Lemma core_last : forall terrain p, last_space (core terrain p) = false.
   Proof.
-    intros p. destruct (core p) eqn:E; [reflexivity|]. rewrite <- E.
-    unfold last_space. rewrite <- (suffix_last (core p) (collapse (trim_ws p)) 0).
+    intros terrain p. destruct (core terrain p) eqn:E; [reflexivity|]. rewrite <- E.
+    unfold last_space. rewrite <- (suffix_last (core terrain p) (collapse (trim_ws p)) 0).
     - apply collapse_last. apply trim_last.
     - apply core_suffix.
     - rewrite E. discriminate.
@@ -414,14 +422,14 @@ Section Clean.
 
   Lemma finish_core : forall np terrain p, trim_ws p <> [] ->
     clean np terrain isrel p =
-      (let s := core p in
+      (let s := core terrain p in
        let s1 := if np then add_prefix TEX s else s in
        if terrain then add_prefix DATA s1 else s1).
   Proof.
-    intros np terrain p H. rewrite clean_unfold by exact H. unfold finish. fold (core p).
-    rewrite (isrel_ok (core p)) by apply core_fs. rewrite andb_true_r. cbv zeta.
-    assert (has_fs (if np then add_prefix TEX (core p) else core p) = false) as Hf.
-    { destruct np; [|apply core_fs]. unfold add_prefix. destruct (starts_ci TEX (core p)); [apply core_fs|].
+    intros np terrain p H. rewrite clean_unfold by exact H. unfold finish. fold (core terrain p).
+    rewrite (isrel_ok (core terrain p)) by apply core_fs. rewrite andb_true_r. cbv zeta.
+    assert (has_fs (if np then add_prefix TEX (core terrain p) else core terrain p) = false) as Hf.
+    { destruct np; [|apply core_fs]. unfold add_prefix. destruct (starts_ci TEX (core terrain p)); [apply core_fs|].
       rewrite has_fs_app, core_fs. reflexivity. }
     rewrite (isrel_ok _ Hf). now rewrite andb_true_r.
   Qed.
@@ -432,9 +440,9 @@ Section Clean.
   Lemma clean_blank : forall np terrain p, all_space p = true -> clean np terrain isrel p = [].
   Proof. intros. apply clean_empty_trim. now apply trim_all_space. Qed.
 
-  Lemma prefixed_tex_tidy : forall p, mixed p = false -> tidy (add_prefix TEX (core p)).
+  Lemma prefixed_tex_tidy : forall terrain p, tidy (add_prefix TEX (core terrain p)).
   Proof.
-    intros p Hm. apply tidy_add_prefix; auto using core_last, core_fs, core_dbs, core_hd_bs.
+    intros terrain p. apply tidy_add_prefix; auto using core_last, core_fs, core_dbs, core_hd_bs.
     intros H. destruct (starts_tex_inv _ H) as (c & r & -> & Hc). simpl. apply (lower_t c Hc).
   Qed.
 
@@ -469,127 +477,81 @@ Section Clean.
   (* ----------------------------------------------------------------------------------------- *)
   (* prefixing configurations (needs_prefix = true: FO3, SK, SSE, FO4, FO76, SF) *)
 
-  Lemma data_tex_tidy : forall p, mixed p = false -> tidy (add_prefix DATA (add_prefix TEX (core p))).
+  Lemma data_tex_tidy : forall terrain p, tidy (add_prefix DATA (add_prefix TEX (core terrain p))).
   Proof.
-    intros p Hm. destruct (prefixed_tex_tidy p Hm) as (H1 & H2 & H3 & H4 & H5).
+    intros terrain p. destruct (prefixed_tex_tidy terrain p) as (H1 & H2 & H3 & H4 & H5).
     apply tidy_add_prefix; auto.
   Qed.
 
-  Lemma body_data : forall q, body true (DATA ++ q) = q.
-  Proof. intros q. unfold body. rewrite starts_ci_app. reflexivity. Qed.
-
-  Theorem clean_canonical_prefixing : forall terrain p, mixed p = false ->
+  Theorem clean_canonical_prefixing : forall terrain p,
     canonical true terrain isrel (clean true terrain isrel p) = true.
   Proof.
-    intros terrain p Hm.
+    intros terrain p.
     destruct (trim_ws p) eqn:Et; [rewrite clean_empty_trim by exact Et; reflexivity|].
     rewrite finish_core by (rewrite Et; discriminate). cbv zeta.
-    pose proof (add_prefix_starts TEX (core p)) as Hs.
+    pose proof (add_prefix_starts TEX (core terrain p)) as Hs.
     destruct terrain.
-    - pose proof (data_tex_tidy p Hm) as Ht.
-      set (q1 := add_prefix TEX (core p)) in *.
+    - pose proof (data_tex_tidy true p) as Ht.
+      set (q1 := add_prefix TEX (core true p)) in *.
       assert (add_prefix DATA q1 = DATA ++ q1) as Eq
         by (unfold add_prefix; now rewrite (starts_tex_not_data _ Hs)).
       rewrite Eq in *. destruct Ht as (H1 & H2 & H3 & H4 & H5).
       apply canonical_intro; auto.
-    - destruct (prefixed_tex_tidy p Hm) as (H1 & H2 & H3 & H4 & H5).
+    - destruct (prefixed_tex_tidy false p) as (H1 & H2 & H3 & H4 & H5).
       apply canonical_intro; auto; discriminate.
   Qed.
 
   Lemma strip_id_tex : forall q, starts_ci TEX q = true -> strip_to_textures q = q.
   Proof. intros q H. unfold strip_to_textures. now rewrite H. Qed.
 
-  Theorem clean_idem_prefixing : forall p, mixed p = false ->
-    clean true false isrel (clean true false isrel p) = clean true false isrel p.
+  (* what the steps behind the slash clean-up do to a tidy string that starts with textures\ *)
+  Lemma finish_tex : forall q, starts_ci TEX q = true -> tidy q ->
+    drop_bs (strip_to_textures q) = q /\ isrel q = true /\ add_prefix TEX q = q.
   Proof.
-    intros p Hm.
-    destruct (trim_ws p) eqn:Et; [rewrite (clean_empty_trim true false p Et); reflexivity|].
-    rewrite (finish_core true false p) by (rewrite Et; discriminate). cbv zeta.
-    pose proof (add_prefix_starts TEX (core p)) as Hs.
-    pose proof (prefixed_tex_tidy p Hm) as Ht.
-    set (q := add_prefix TEX (core p)) in *.
-    assert (q <> []) as Hne by (intros E; rewrite E in Hs; discriminate).
-    rewrite clean_tidy by assumption.
-    destruct Ht as (H1 & H2 & H3 & H4 & H5).
-    unfold finish. rewrite strip_id_tex by exact Hs. rewrite drop_bs_id by exact H5.
-    rewrite (isrel_ok q H3). simpl. now apply add_prefix_id.
+    intros q Hs (H1 & H2 & H3 & H4 & H5).
+    rewrite strip_id_tex by exact Hs. rewrite drop_bs_id by exact H5.
+    split; [reflexivity|]. split; [now apply isrel_ok|now apply add_prefix_id].
   Qed.
 
-  Lemma find_tex_skip : forall c r, (lower c =? 92) = false -> is_nl c = false -> find_tex (c :: r) = find_tex r.
+  Theorem clean_idem_prefixing : forall terrain p,
+    clean true terrain isrel (clean true terrain isrel p) = clean true terrain isrel p.
   Proof.
-    intros c r H1 H2.
-    change (find_tex (c :: r)) with
-      (if starts_ci BTEX (c :: r) then Some (skipn 10 (c :: r)) else if is_nl c then None else find_tex r).
-    assert (starts_ci BTEX (c :: r) = false) as ->.
-    { change (starts_ci BTEX (c :: r)) with ((lower c =? 92) && starts_ci TEX r). now rewrite H1. }
-    now rewrite H2.
-  Qed.
-
-  Lemma find_tex_data : forall q, starts_ci TEX q = true -> find_tex (DATA ++ q) = Some (skipn 9 q).
-  Proof.
-    intros q H. unfold DATA. simpl app.
-    rewrite !find_tex_skip by reflexivity.
-    change (find_tex (92 :: q)) with
-      (if starts_ci BTEX (92 :: q) then Some (skipn 10 (92 :: q)) else if is_nl 92 then None else find_tex q).
-    change (starts_ci BTEX (92 :: q)) with ((lower 92 =? lower 92) && starts_ci TEX q).
-    rewrite H. reflexivity.
-  Qed.
-
-  (* terrain files of the prefixing games: idempotent when the result reads Data\textures\<rest>
-     with the literal lower-case folder name and <rest> not starting with textures\ again
-     (both exclusions are needed: see clean_idem_refuted_terrain / _terrain_case) *)
-  Theorem clean_idem_prefixing_terrain : forall p, mixed p = false ->
-    firstn 9 (skipn 5 (clean true true isrel p)) = TEX ->
-    starts_ci TEX (skipn 14 (clean true true isrel p)) = false ->
-    clean true true isrel (clean true true isrel p) = clean true true isrel p.
-  Proof.
-    intros p Hm.
-    destruct (trim_ws p) eqn:Et; [rewrite (clean_empty_trim true true p Et); reflexivity|].
-    rewrite (finish_core true true p) by (rewrite Et; discriminate). cbv zeta.
-    pose proof (add_prefix_starts TEX (core p)) as Hs.
-    pose proof (prefixed_tex_tidy p Hm) as Ht1.
-    pose proof (data_tex_tidy p Hm) as Ht.
-    set (q1 := add_prefix TEX (core p)) in *.
-    assert (add_prefix DATA q1 = DATA ++ q1) as Eq.
-    { unfold add_prefix. now rewrite (starts_tex_not_data _ Hs). }
-    rewrite Eq in *. intros Hlit Hrest.
-    change (skipn 5 (DATA ++ q1)) with q1 in Hlit.
-    change (skipn 14 (DATA ++ q1)) with (skipn 9 q1) in Hrest.
-    assert (q1 = TEX ++ skipn 9 q1) as Eq1.
-    { rewrite <- Hlit at 1. symmetry. rewrite <- (firstn_skipn 9 q1) at 3. reflexivity. }
-    rewrite clean_tidy; [|destruct q1; discriminate|exact Ht].
-    destruct Ht1 as (H1 & H2 & H3 & H4 & H5).
-    unfold finish.
-    assert (strip_to_textures (DATA ++ q1) = skipn 9 q1) as ->.
-    { unfold strip_to_textures.
-      assert (starts_ci TEX (DATA ++ q1) = false) as -> by reflexivity.
-      now rewrite find_tex_data. }
-    set (r := skipn 9 q1) in *.
-    assert (has_fs r = false) as Hfr by (eapply suffix_has_fs; [apply suffix_skipn|exact H3]).
-    assert (hd_bs r = false) as Hbr.
-    { rewrite Eq1 in H4. rewrite has_dbs_TEX in H4. apply orb_false_iff in H4. tauto. }
-    rewrite drop_bs_id by exact Hbr. rewrite (isrel_ok r Hfr). simpl andb. cbv iota.
-    assert (add_prefix TEX r = q1) as ->.
-    { unfold add_prefix. rewrite Hrest. now symmetry. }
-    rewrite (isrel_ok q1 H3). unfold add_prefix. now rewrite (starts_tex_not_data _ Hs).
+    intros terrain p.
+    destruct (trim_ws p) eqn:Et; [rewrite (clean_empty_trim true terrain p Et); reflexivity|].
+    rewrite (finish_core true terrain p) by (rewrite Et; discriminate). cbv zeta.
+    pose proof (add_prefix_starts TEX (core terrain p)) as Hs.
+    pose proof (prefixed_tex_tidy terrain p) as Ht1.
+    pose proof (data_tex_tidy terrain p) as Ht.
+    set (q1 := add_prefix TEX (core terrain p)) in *.
+    destruct (finish_tex q1 Hs Ht1) as (E1 & E2 & E3).
+    destruct terrain.
+    - assert (add_prefix DATA q1 = DATA ++ q1) as Eq
+        by (unfold add_prefix; now rewrite (starts_tex_not_data _ Hs)).
+      rewrite Eq in *.
+      rewrite clean_tidy; [|destruct q1; discriminate|exact Ht].
+      unfold finish, sdt. rewrite (strip_data_tex_prefixed q1 Hs).
+      rewrite E1, E2. simpl andb. cbv iota. rewrite E3, E2. exact Eq.
+    - assert (q1 <> []) as Hne by (intros E; rewrite E in Hs; discriminate).
+      rewrite clean_tidy by assumption.
+      unfold finish, sdt. rewrite E1, E2. simpl andb. cbv iota. exact E3.
   Qed.
 
   (* ----------------------------------------------------------------------------------------- *)
   (* OB / Special (needs_prefix = false): canonical and idempotent exactly outside the two defect
      classes "the result still contains \textures\" and "the result starts with whitespace" *)
 
-  Theorem clean_ob_outside_defects : forall terrain p, mixed p = false ->
+  Theorem clean_ob_outside_defects : forall terrain p,
     hd_space (clean false terrain isrel p) = false ->
     contains_ci BTEX (clean false terrain isrel p) = false ->
     clean false terrain isrel (clean false terrain isrel p) = clean false terrain isrel p /\
     canonical false terrain isrel (clean false terrain isrel p) = true.
   Proof.
-    intros terrain p Hm.
+    intros terrain p.
     destruct (trim_ws p) eqn:Et; [rewrite (clean_empty_trim false terrain p Et); split; reflexivity|].
     rewrite (finish_core false terrain p) by (rewrite Et; discriminate). cbv zeta.
-    pose proof (core_fs p) as H3. pose proof (core_dbs p Hm) as H4.
-    pose proof (core_hd_bs p) as H5. pose proof (core_last p) as H2.
-    set (s := core p) in *.
+    pose proof (core_fs terrain p) as H3. pose proof (core_dbs terrain p) as H4.
+    pose proof (core_hd_bs terrain p) as H5. pose proof (core_last terrain p) as H2.
+    set (s := core terrain p) in *.
     destruct terrain.
     - intros Hhd Hc.
       assert (tidy (add_prefix DATA s)) as Ht.
@@ -601,7 +563,11 @@ Section Clean.
       destruct Ht as (T1 & T2 & T3 & T4 & T5).
       split.
       + rewrite clean_tidy; [|exact Hne|unfold tidy; auto].
-        unfold finish. unfold strip_to_textures. rewrite (starts_data_not_tex _ Hs).
+        unfold finish, sdt.
+        assert (strip_data_tex q = q) as ->.
+        { unfold strip_data_tex. destruct (starts_ci DATATEX q) eqn:E; [|reflexivity].
+          apply datatex_contains in E. congruence. }
+        unfold strip_to_textures. rewrite (starts_data_not_tex _ Hs).
         rewrite (find_tex_none _ Hc). rewrite drop_bs_id by exact T5. simpl andb. cbv iota.
         rewrite (isrel_ok q T3). now apply add_prefix_id.
       + apply canonical_intro; auto; [|discriminate].
@@ -611,7 +577,7 @@ Section Clean.
       destruct s as [|c r] eqn:Es; [split; reflexivity|]. rewrite <- Es in *.
       split.
       + rewrite clean_tidy; [|rewrite Es; discriminate|unfold tidy; auto].
-        unfold finish. simpl andb. cbv iota.
+        unfold finish, sdt. simpl andb. cbv iota.
         assert (strip_to_textures s = s) as ->.
         { unfold strip_to_textures. destruct (starts_ci TEX s); [reflexivity|]. now rewrite (find_tex_none _ Hc). }
         now apply drop_bs_id.
@@ -645,9 +611,9 @@ Qed.
 
 Lemma clean_shape : forall np terrain isrel p, trim_ws p <> [] -> exists b1 b2 : bool,
   clean np terrain isrel p =
-    (let s1 := if b1 then add_prefix TEX (core p) else core p in if b2 then add_prefix DATA s1 else s1).
+    (let s1 := if b1 then add_prefix TEX (core terrain p) else core terrain p in if b2 then add_prefix DATA s1 else s1).
 Proof.
-  intros np terrain isrel p H. rewrite clean_unfold by exact H. unfold finish. fold (core p).
+  intros np terrain isrel p H. rewrite clean_unfold by exact H. unfold finish. fold (core terrain p).
   eexists. eexists. reflexivity.
 Qed.
 
@@ -656,7 +622,7 @@ Proof.
   intros np terrain isrel p.
   destruct (trim_ws p) eqn:Et; [rewrite clean_empty_trim by exact Et; reflexivity|].
   destruct (clean_shape np terrain isrel p) as (b1 & b2 & ->); [rewrite Et; discriminate|]. cbv zeta.
-  pose proof (core_fs p).
+  pose proof (core_fs terrain p).
   destruct b1, b2; repeat apply add_prefix_fs; auto.
 Qed.
 
@@ -665,16 +631,16 @@ Proof.
   intros np terrain isrel p.
   destruct (trim_ws p) eqn:Et; [rewrite clean_empty_trim by exact Et; reflexivity|].
   destruct (clean_shape np terrain isrel p) as (b1 & b2 & ->); [rewrite Et; discriminate|]. cbv zeta.
-  pose proof (core_last p).
+  pose proof (core_last terrain p).
   destruct b1, b2; repeat apply add_prefix_last; auto.
 Qed.
 
-Theorem clean_single_bs : forall np terrain isrel p, mixed p = false -> has_dbs (clean np terrain isrel p) = false.
+Theorem clean_single_bs : forall np terrain isrel p, has_dbs (clean np terrain isrel p) = false.
 Proof.
-  intros np terrain isrel p Hm.
+  intros np terrain isrel p.
   destruct (trim_ws p) eqn:Et; [rewrite clean_empty_trim by exact Et; reflexivity|].
   destruct (clean_shape np terrain isrel p) as (b1 & b2 & ->); [rewrite Et; discriminate|]. cbv zeta.
-  pose proof (conj (core_dbs p Hm) (core_hd_bs p)) as H.
+  pose proof (conj (core_dbs terrain p) (core_hd_bs terrain p)) as H.
   destruct b1, b2; repeat (apply add_prefix_dbs; auto); auto; apply H.
 Qed.
 
@@ -686,7 +652,7 @@ Proof.
   intros terrain isrel p Hrel.
   destruct (trim_ws p) eqn:Et; [rewrite clean_empty_trim by exact Et; reflexivity|].
   rewrite (finish_core isrel Hrel) by (rewrite Et; discriminate). cbv zeta.
-  pose proof (add_prefix_starts TEX (core p)) as Hs.
+  pose proof (add_prefix_starts TEX (core terrain p)) as Hs.
   destruct terrain.
   - unfold add_prefix at 1. rewrite (starts_tex_not_data _ Hs). reflexivity.
   - destruct (starts_tex_inv _ Hs) as (c & r & -> & Hc). simpl. apply (lower_t c Hc).
@@ -705,54 +671,32 @@ Qed.
 (* "a\textures\b\textures\c.dds" *)
 Definition w_two_textures : list N :=
   [97; 92; 116; 101; 120; 116; 117; 114; 101; 115; 92; 98; 92; 116; 101; 120; 116; 117; 114; 101; 115; 92; 99; 46; 100; 100; 115].
-(* "a/\b" *)
-Definition w_mixed : list N := [97; 47; 92; 98].
 (* "\ a" *)
 Definition w_bs_space : list N := [92; 32; 97].
-(* "textures\textures\x" *)
-Definition w_tex_tex : list N :=
-  [116; 101; 120; 116; 117; 114; 101; 115; 92; 116; 101; 120; 116; 117; 114; 101; 115; 92; 120].
-(* "TEXTURES\a" *)
-Definition w_upper : list N := [84; 69; 88; 84; 85; 82; 69; 83; 92; 97].
-(* "textures\a" *)
-Definition w_tex_a : list N := [116; 101; 120; 116; 117; 114; 101; 115; 92; 97].
 (* "x\n\textures\a" with a real newline *)
 Definition w_newline : list N := [120; 10; 92; 116; 101; 120; 116; 117; 114; 101; 115; 92; 97].
 
-Theorem clean_idem_refuted_ob : exists p, mixed p = false /\
+Theorem clean_idem_refuted_ob : exists p,
   clean false false isrel_posix (clean false false isrel_posix p) <> clean false false isrel_posix p.
-Proof. exists w_two_textures. split; [reflexivity|]. vm_compute. discriminate. Qed.
+Proof. exists w_two_textures. vm_compute. discriminate. Qed.
 
-Theorem clean_idem_refuted_ob_terrain : exists p, mixed p = false /\
+Theorem clean_idem_refuted_ob_terrain : exists p,
   clean false true isrel_posix (clean false true isrel_posix p) <> clean false true isrel_posix p.
-Proof. exists w_tex_a. split; [reflexivity|]. vm_compute. discriminate. Qed.
+Proof. exists w_two_textures. vm_compute. discriminate. Qed.
 
-Theorem clean_canonical_refuted_ob : exists p, mixed p = false /\
+Theorem clean_canonical_refuted_ob : exists p,
   canonical false false isrel_posix (clean false false isrel_posix p) = false.
-Proof. exists w_two_textures. split; reflexivity. Qed.
+Proof. exists w_two_textures. reflexivity. Qed.
 
-Theorem clean_canonical_refuted_ob_ws : exists p, mixed p = false /\
+Theorem clean_canonical_refuted_ob_ws : exists p,
   hd_space (clean false false isrel_posix p) = true /\
   canonical false false isrel_posix (clean false false isrel_posix p) = false /\
   clean false false isrel_posix (clean false false isrel_posix p) <> clean false false isrel_posix p.
 Proof. exists w_bs_space. repeat split; try reflexivity. vm_compute. discriminate. Qed.
 
-Theorem clean_canonical_refuted_ob_newline : exists p, mixed p = false /\
+Theorem clean_canonical_refuted_ob_newline : exists p,
   canonical false false isrel_posix (clean false false isrel_posix p) = false.
-Proof. exists w_newline. split; reflexivity. Qed.
-
-Theorem clean_idem_refuted_mixed : exists p,
-  clean true false isrel_posix (clean true false isrel_posix p) <> clean true false isrel_posix p /\
-  canonical true false isrel_posix (clean true false isrel_posix p) = false.
-Proof. exists w_mixed. split; [vm_compute; discriminate|reflexivity]. Qed.
-
-Theorem clean_idem_refuted_terrain : exists p, mixed p = false /\
-  clean true true isrel_posix (clean true true isrel_posix p) <> clean true true isrel_posix p.
-Proof. exists w_tex_tex. split; [reflexivity|]. vm_compute. discriminate. Qed.
-
-Theorem clean_idem_refuted_terrain_case : exists p, mixed p = false /\
-  clean true true isrel_posix (clean true true isrel_posix p) <> clean true true isrel_posix p.
-Proof. exists w_upper. split; [reflexivity|]. vm_compute. discriminate. Qed.
+Proof. exists w_newline. reflexivity. Qed.
 
 (* The hypothesis on is_relative cannot simply be dropped: with a Windows-like rule ("X:" at the
    front = absolute; MODEL ONLY, not observed on a Windows build) the prefixing configuration is not
@@ -767,6 +711,6 @@ Definition w_drive : list N :=
   [92; 116; 101; 120; 116; 117; 114; 101; 115; 92; 67; 58; 92; 120;
    92; 116; 101; 120; 116; 117; 114; 101; 115; 92; 67; 58; 92; 121].
 
-Lemma clean_idem_needs_isrel_hyp : exists p, mixed p = false /\
+Lemma clean_idem_needs_isrel_hyp : exists p,
   clean true false isrel_drive (clean true false isrel_drive p) <> clean true false isrel_drive p.
-Proof. exists w_drive. split; [reflexivity|]. vm_compute. discriminate. Qed.
+Proof. exists w_drive. vm_compute. discriminate. Qed.
